@@ -210,6 +210,13 @@ def literal_values():
     return guarded("literal", run)
 
 
+def helpers_in_expressions():
+    """INSTR and VAL occur inside numeric expressions: their bundled helpers return the Color BASIC value and leave their
+    by-reference arguments alone (shared with C20 / C03)"""
+    from tx import p_c20, p_c03
+    return [dict(o, id="helpers/" + o["id"]) for o in p_c20.instr() + p_c03.val_helper()]
+
+
 def int_helper():
     """INT is translated to a call of the bundled ecb_int: for every argument it must return Color BASIC's INT, the largest
     whole number not above the argument (bounded stand-in: the real BASIC09 text is evaluated on a grid)"""
@@ -238,4 +245,4 @@ def obligations():  # noqa: F811
     # a value computed by a hoisted call reaches the expression through its temporary: temporaries of one statement are distinct
     from tx.p_c05 import temp_sequences
     from tx.p_c02 import condition_coercion
-    return _c01_base() + literal_values() + temp_sequences() + condition_coercion() + int_helper()
+    return _c01_base() + literal_values() + temp_sequences() + condition_coercion() + int_helper() + helpers_in_expressions()
